@@ -143,7 +143,7 @@ func TestC03(t *testing.T) {
 	h := c03History.On(col, "rapid, stateful: a pool of 3..6 generated templates (assign, capture, loops over binding containers, sort reverse uniq concat compact map join, grouped and ungrouped cycle, break/continue, conditions; some fail part-way depending on the bindings: division by a bound value that is zero in some environments, an error-returning filter) and 2..4 binding environments that are realised ONCE (nested []any with spare capacity, typed slices, maps, Drops, pointers) and shared by reference; a history of 2..40 steps: render(template, environment) on the shared engine and template objects, and reparse(template). Invariants after every step: the deep fingerprint of every environment (incl. spare slice capacity) is what it was at creation; render(i, j) equals its first result and the result on a fresh engine with freshly built equal bindings; a probe of every assignable / loop variable renders as with fresh bindings. Non-trivial: the history contains a failing render followed by a repeat of an earlier pair; distinct by (templates, steps)", false)
 	prof := hx.FullProfile()
 	prof.Failing, prof.Tablerow, prof.MaxNodes, prof.BareJumps = true, true, 12, true
-	col.Rapid(h.Sub, env.PerShard(env.Pick(3000, 120000)), func(t *rapid.T) {
+	col.Rapid(h.Sub, env.PerShard(env.Pick(25000, 250000)), func(t *rapid.T) {
 		c := &c03Case{}
 		for i, n := 0, rapid.IntRange(3, 6).Draw(t, "ntemplates"); i < n; i++ {
 			p := hx.GenProgram(t, prof)
